@@ -40,17 +40,23 @@ Contents
   `C03_at_least_one_report_any_schedule` (every outcome of `SearchS`);
 * `C07_writer_exactly_one_always`, `C07_writer_exactly_one_any_schedule` (exactly one `bestmove` line per search),
   `C07_session_exactly_one_always` (whole sessions: the number of `bestmove` lines EQUALS the number of `go` lines);
-* the evaluation bound from a condition decidable on the root (`EvalBelowMate_of_potential`,
+* the evaluation bound: `EvalBelowMate_all` (every set of states, since the repair of defect F10), and, from the
+  development before the repair, from a condition decidable on the root (`EvalBelowMate_of_potential`,
   `C03_at_least_one_report_of_potential`);
-* the limit of the statement — a defect of the engine on over-material positions (`C03_no_report_overmaterial`: with static
-  evaluations `≥ mate_in_ply(0)` a search of a legal non-terminal root reports nothing; replayed on the real binary);
+* the former limit of the statement — defect F10 of the engine on over-material positions, FOUND by this file (the removed
+  theorem `C03_no_report_overmaterial`: with static evaluations `≥ mate_in_ply(0)` a search of a legal non-terminal root
+  reported nothing; replayed on the real binary) and repaired in `/repo` (the heuristic result of `Evaluator::evaluate` is
+  clamped): `kn_evalBelowMate_repaired`, `C03_report_overmaterial_repaired`;
 * non-vacuity examples for every theorem.
 
-Hypotheses that remain, and why: `EvalBelowMate R` (cannot be dropped: the counterexample; derived for roots with a
-promotion potential `≤ 10000` a side; for the initial position — potential 10400 — it stays a hypothesis: the best proved
-bound `|score| ≤ 0.95·|material| + 1450` gives 11330 there, above `mate_in_ply(0)` = 11000); `CollisionFree` (the content of
-"up to 64-bit chance"); at least one worker in the first iteration (with none nothing is searched); depth limit `≥ 1`
-(`go depth 0` owes no report) and, for the preservation of the memory invariant only, `≤ 10^9` (plies below `2^31`).
+Hypotheses that remain, and why: `EvalBelowMate R` — kept in the signatures of the theorems of this file, but since the
+repair of F10 it is TRUE of every `R` (`EvalBelowMate_all`), so it is no restriction any more; the theorems without it are
+in `Wee/Props/Clamped.lean` (`C03_at_least_one_report_unconditional`, `C07_session_exactly_one_unconditional`, …).  Before
+the repair it could not be dropped (the counterexample) and stayed a hypothesis for the initial position (potential 10400:
+the best proved bound `|score| ≤ 0.95·|material| + 1450` gives 11330 there, above `mate_in_ply(0)` = 11000).
+`CollisionFree` (the content of "up to 64-bit chance"); at least one worker in the first iteration (with none nothing is
+searched); depth limit `≥ 1` (`go depth 0` owes no report) and, for the preservation of the memory invariant only, `≤ 10^9`
+(plies below `2^31`).
 -/
 namespace Wee
 open Wee.Search
@@ -203,8 +209,9 @@ re-used, the first iteration may have any number of workers, `Stop` may arrive a
 conclusion (C04), not a hypothesis.  What remains is the domain of the property: the root has a legal move (a terminal
 root is not searched, F2), the depth limit is at least 1
 (`go depth 0` owes no report), there is at least one worker, and static evaluations of the region stay strictly below
-`mate_in_ply(0)` in absolute value (`EvalBelowMate`; derived from a decidable condition on the root in
-`C03_at_least_one_report_of_potential`; it cannot be dropped: `C03_no_report_overmaterial`). -/
+`mate_in_ply(0)` in absolute value (`EvalBelowMate`; since the repair of defect F10 this holds of every region,
+`EvalBelowMate_all`, so the hypothesis is redundant: `C03_at_least_one_report_unconditional` in `Wee/Props/Clamped.lean`;
+before the repair it could not be dropped — the removed counterexample `C03_no_report_overmaterial`). -/
 theorem C03_at_least_one_report : C03_report_always_statement := by
   intro R hR hE root hroot hmoves art hmem rng0 maxDepth fuelDepth hlim workersOf hw cancelAt
   obtain ⟨nT, nB, hT, hB, hinv⟩ := hmem.tinv.1
